@@ -207,7 +207,16 @@ def forgeries(m):
         sp = snmp.usm_params_node(engine or eid, m.agent.boots, m.agent.engine_time, user.name if user_name is None else user_name, auth, bytes(salt))
         data = snmp.v3_msg_node(msg["msg_id"], 65507, flags, 3, sp.encode(), payload).encode()
         if sign_with is not None:
-            data = usm.sign(method, sign_with, data)
+            try:
+                data = usm.sign(method, sign_with, data)
+            except ber.BerError:
+                # a message the reference decoder itself refuses (payload kind
+                # contradicting the flags): sign it by position
+                root = ber.parse_all(data)
+                spn = root.children[2]
+                inner = ber.parse_all(spn.content)
+                off = spn.cstart + inner.children[4].cstart
+                data = data[:off] + usm.hmac96(method, sign_with, data) + data[off + 12 :]
         return data
 
     Z12 = b"\x00" * 12
@@ -237,6 +246,11 @@ def forgeries(m):
         F("priv-user-plaintext-flags1-foreign-key", flags=1, auth=Z12, sign_with=other_pw_key)
         F("priv-user-flags3-encrypted-with-foreign-key-zero-digest", flags=3, auth=Z12, encrypt_with=usm.localise(method, b"another-priv-password", eid))
         F("priv-user-flags2-encrypted-own-guess", flags=2, encrypt_with=usm.localise(method, b"another-priv-password", eid))
+        # flags still say "encrypted", the payload is a plaintext scoped PDU:
+        # without a digest, and signed by someone who holds the
+        # authentication key but not the privacy key
+        F("priv-user-flags3-plaintext-scoped-pdu-zero-digest", flags=3, auth=Z12)
+        F("priv-user-flags3-plaintext-scoped-pdu-valid-digest", flags=3, auth=Z12, sign_with=user.auth_key(eid))
     # "privacy without authentication" is not a security level at all
     F("flags2-plaintext-no-digest", flags=2)
     F("flags6-plaintext-no-digest", flags=6)
